@@ -164,6 +164,10 @@ class QuicPacketBuilder:
         """
         Starts a new frame.
         """
+        if self._buffer.tell() == self._packet_start + self._header_size:
+            # the payload of a packet is padded to a minimum size, make sure
+            # that the first frame leaves room for it
+            capacity = max(capacity, PACKET_NUMBER_MAX_SIZE - PACKET_NUMBER_SEND_SIZE)
         if self.remaining_buffer_space < capacity or (
             frame_type not in NON_IN_FLIGHT_FRAME_TYPES
             and self.remaining_flight_space < capacity
